@@ -549,4 +549,51 @@ func main() {
 	if err := w.Flush(); err != nil {
 		Die("%v", err)
 	}
+	// matrix histories: a second family of shards
+	mw := NewCaseWriter(o.Out, "mcases", hdrM, "mism4", 10)
+	mw.Type = "case4"
+	mw.Rule = ruleM
+	for _, c := range readMCorpus(o.Extra) {
+		c.Outs = executeM(c)
+		mw.Add(coqMCase(c), c, "corpus:"+fmt.Sprint(len(c.Ops)), true)
+		mw.Count("corpus")
+	}
+	mrng := NewRng(o.Seed + 104729)
+	for k := 0; k < o.N/3; k++ {
+		tn := typeNames[k%len(typeNames)]
+		if k%2 == 0 {
+			tn = typeNames[(k/2)%3]
+		}
+		c, nt := genMCase(mrng.Split(), tn, mw)
+		b, _ := json.Marshal(c.Ops)
+		mw.Add(coqMCase(c), c, tn+string(b), nt)
+		mw.Count("type:" + tn)
+	}
+	if err := mw.Flush(); err != nil {
+		Die("%v", err)
+	}
+}
+
+// matrix corpus: <corpus>.matrix.jsonl next to the vector corpus
+func readMCorpus(path string) []MCase {
+	var cs []MCase
+	if path == "" {
+		return cs
+	}
+	b, err := os.ReadFile(strings.TrimSuffix(path, ".jsonl") + ".matrix.jsonl")
+	if err != nil {
+		return cs
+	}
+	for _, line := range strings.Split(string(b), "\n") {
+		line = strings.TrimSpace(line)
+		if line == "" || strings.HasPrefix(line, "#") {
+			continue
+		}
+		var c MCase
+		if err := json.Unmarshal([]byte(line), &c); err != nil {
+			Die("matrix corpus: %v", err)
+		}
+		cs = append(cs, c)
+	}
+	return cs
 }
